@@ -164,6 +164,31 @@ func c05Special(rng *core.Rand, k int) []c05Input {
 		b.WriteString("  let f = fun x y -> (y, x)\n  let p = f a0 a1\n  let q = f a1 a2\n  (p, q, a0 + 1)\n")
 		add("inference-variables", b.String())
 	}
+	// type variables that occur only in the BODY of a function (they are hoisted as type
+	// parameters after the ones of the signature): several of them in one function
+	{
+		var b strings.Builder
+		b.WriteString("package main\n\npackage_info _ =\n  let show<T>: T->()\n\n")
+		shapes := []string{"fun %s -> %s", "fun %s -> [%s]", "fun %s -> (%s, 1)", "fun %s -> [[%s]]", "fun %s -> (\"s\", %s)", "fun %s -> ([%s], 2)"}
+		for f := 0; f < 2; f++ {
+			n := 2 + rng.Intn(8)
+			sig := "()"
+			if f == 1 {
+				sig = "x y"
+			}
+			fmt.Fprintf(&b, "let probe%d %s =\n", f, sig)
+			for i := 0; i < n; i++ {
+				v := fmt.Sprintf("%c%d", 'a'+rng.Intn(20), i)
+				fmt.Fprintf(&b, "  show ("+shapes[rng.Intn(len(shapes))]+")\n", v, v)
+			}
+			if f == 1 {
+				b.WriteString("  (y, x)\n\n")
+			} else {
+				b.WriteString("  0\n\n")
+			}
+		}
+		add("body-only-type-variables", b.String())
+	}
 	return out
 }
 
